@@ -55,6 +55,8 @@ type Reply struct {
 	Delay    time.Duration
 	Abort    bool // answer with bytes that are not HTTP, then close (a plain close would make Go's transport retry)
 	Truncate bool // announce the full Content-Length, send half of the body, close
+	Stall    bool // announce the full Content-Length, send half of the body, then nothing more (until StallFor ends)
+	StallFor time.Duration
 	Drop     bool // read the request, then close the connection without a single byte
 	// ServeContent: answer through http.ServeContent with this ETag / modification time
 	ServeContent bool
@@ -328,6 +330,27 @@ func (o *Origin) handle(w http.ResponseWriter, r *http.Request) {
 		}
 		panic(http.ErrAbortHandler)
 	}
+	if rep.Stall {
+		if hj, ok := w.(http.Hijacker); ok {
+			conn, bw, err := hj.Hijack()
+			if err == nil {
+				fmt.Fprintf(bw, "HTTP/1.1 200 OK\r\nContent-Type: text/plain\r\nCache-Control: max-age=60\r\nX-Fetch: %d\r\nContent-Length: %d\r\n\r\n", f.ID, len(rep.Body))
+				bw.Write(rep.Body[:len(rep.Body)/2])
+				bw.Flush()
+				d := rep.StallFor
+				if d == 0 {
+					d = 30 * time.Second
+				}
+				// the peer closing the connection (pike giving up) ends the stall early
+				conn.SetReadDeadline(time.Now().Add(d))
+				var one [1]byte
+				conn.Read(one[:])
+				conn.Close()
+				return
+			}
+		}
+		panic(http.ErrAbortHandler)
+	}
 	if rep.Truncate {
 		if hj, ok := w.(http.Hijacker); ok {
 			conn, bw, err := hj.Hijack()
@@ -362,7 +385,8 @@ func (o *Origin) handle(w http.ResponseWriter, r *http.Request) {
 	if status == 0 {
 		status = 200
 	}
-	if r.Method != http.MethodHead && status != 304 && status != 204 {
+	if status != 304 && status != 204 {
+		// also on HEAD: the length the body would have, as real servers announce it
 		h.Set("Content-Length", strconv.Itoa(len(rep.Body)))
 	}
 	w.WriteHeader(status)
